@@ -2,7 +2,7 @@
 //!
 //! stdin: one request per line: a Nickel program with `\n`/`\\` escaped, or `@file <path>`.
 //! stdout, one line per request:
-//!   `OK\t<sexp>\t<deps>`   the parsed (untransformed apart from `free_vars::transform`) term printed
+//!   `OK\t<sexp>\t<deps>\t<n>\t<labels>`   the parsed (untransformed apart from `free_vars::transform`) term printed
 //!                           in the syntax of coq/Rec/FreeVars.v with identifiers interned as
 //!                           numbers, and the `RecordDeps` of every `Term::RecRecord` of the term
 //!                           (canonical text, sorted), as computed by
@@ -401,7 +401,10 @@ fn run(src: &str) -> String {
         return format!("X {}", c.problems.join("; "));
     }
     c.recs.sort();
-    format!("OK\t{}\t{}\t{}", o, c.recs.join(";"), c.pending_fields)
+    // last column: the identifiers behind the numbers (number = position), so that a dependency table
+    // can be read back by name
+    let labels: Vec<String> = c.labels.iter().map(|l| l.replace(['\t', '\n', '\r', ','], " ")).collect();
+    format!("OK\t{}\t{}\t{}\t{}", o, c.recs.join(";"), c.pending_fields, labels.join(","))
 }
 
 fn main() {
